@@ -553,6 +553,20 @@ def intersections_lattice(ctx):
                 ok = False
                 w["exception"] = "%s: %s" % (type(e).__name__, str(e)[:100])
             ctx.ensure("3d:single-polygon-x-collection-with-a-coplanar-element", ok, witness=w)
+    # a SINGLE line / segment in the plane of a SINGLE 3D polygon: no exception (collections skip such elements) and no point off the operands
+    for (a_, b_) in (((-1, 1, 1), (3, 1, 1)), ((0, 0, 1), (2, 2, 1)), ((5, 5, 1), (6, 7, 1)), ((0, 0, 1), (2, 0, 1)), ((1, 1, 1), (1, 1.5, 1))):
+        for what in ("line", "segment"):
+            o = g.Line(g.Point(*a_), g.Point(*b_)) if what == "line" else Segment(g.Point(*a_), g.Point(*b_))
+            w = dict(polygon="square (0,0,1)..(2,2,1)", other=what, through=(a_, b_))
+            try:
+                res = sq0.intersect(o)
+                coll = sq0.intersect(g.LineCollection([o.array]) if what == "line" else _SC(np.array([o.array])))
+                ok = all(bool(sq0.contains(x)) and bool(o.contains(x)) for x in res) and len(res) == sum(r.size // 4 for r in coll)
+                w["got"] = [np.asarray(x.array).tolist() for x in res]
+            except Exception as e:
+                ok = False
+                w["exception"] = "%s: %s" % (type(e).__name__, str(e)[:100])
+            ctx.ensure("3d:single-polygon-x-single-coplanar-line/segment:no-exception-no-spurious-points", ok, witness=w)
     sq = Polygon(g.Point(0, 0, 1), g.Point(2, 0, 1), g.Point(2, 2, 1), g.Point(0, 2, 1))
     for (p, q, want) in [((1, 1, 0), (1, 1, 2), 1), ((3, 3, 0), (3, 3, 2), 0), ((0, 0, 0), (2, 2, 2), 1), ((1, 1, 2), (1, 2, 3), 1), ((5, 5, 0), (6, 5, 0), 0),
                          ((0, 0, 0), (1, 0, 0), 0), ((0.5, 0.5, 0), (0.5, 0.5, 5), 1), ((2, 1, 0), (2, 1, 3), 1)]:
